@@ -1,0 +1,75 @@
+//! Verification hooks (only compiled with the `verif-hooks` cargo feature).
+//!
+//! * an injectable millisecond clock that replaces the system time read in `uptime.rs`
+//! * a schedule-point callback invoked from `parallel.rs`
+//!
+//! Nothing in this module is reachable when the feature is off.
+use std::cell::Cell;
+use std::collections::HashMap;
+use std::sync::atomic::{AtomicU64, Ordering};
+use std::sync::{Arc, RwLock};
+
+thread_local! {
+    static THREAD_NOW_MS: Cell<Option<u64>> = const { Cell::new(None) };
+}
+
+const UNSET: u64 = u64::MAX;
+static GLOBAL_NOW_MS: AtomicU64 = AtomicU64::new(UNSET);
+static GLOBAL_TABLE: RwLock<Option<Arc<HashMap<u32, u64>>>> = RwLock::new(None);
+
+/// Install (or clear) the clock value seen by the calling thread.
+pub fn set_thread_now_ms(now: Option<u64>) {
+    THREAD_NOW_MS.with(|c| c.set(now));
+}
+
+/// Install (or clear) a process-wide clock value (used by worker threads).
+pub fn set_global_now_ms(now: Option<u64>) {
+    GLOBAL_NOW_MS.store(now.unwrap_or(UNSET), Ordering::SeqCst);
+}
+
+/// Install (or clear) a process-wide table `TSval -> arrival time (ms)`.
+pub fn set_global_clock_table(table: Option<HashMap<u32, u64>>) {
+    if let Ok(mut guard) = GLOBAL_TABLE.write() {
+        *guard = table.map(Arc::new);
+    }
+}
+
+/// Arrival time to use for a segment carrying `ts_val`, if a verification clock is installed.
+pub(crate) fn now_ms_for(ts_val: u32) -> Option<u64> {
+    if let Some(now) = THREAD_NOW_MS.with(|c| c.get()) {
+        return Some(now);
+    }
+    if let Ok(guard) = GLOBAL_TABLE.read() {
+        if let Some(table) = guard.as_ref() {
+            if let Some(ms) = table.get(&ts_val) {
+                return Some(*ms);
+            }
+        }
+    }
+    match GLOBAL_NOW_MS.load(Ordering::SeqCst) {
+        UNSET => None,
+        now => Some(now),
+    }
+}
+
+/// Callback invoked at schedule points: `(site, packet bytes)`.
+pub type SchedHook = Arc<dyn Fn(&'static str, &[u8]) + Send + Sync>;
+
+static SCHED_HOOK: RwLock<Option<SchedHook>> = RwLock::new(None);
+
+/// Install (or clear) the schedule-point callback.
+pub fn set_sched_hook(hook: Option<SchedHook>) {
+    if let Ok(mut guard) = SCHED_HOOK.write() {
+        *guard = hook;
+    }
+}
+
+pub(crate) fn sched_point(site: &'static str, packet: &[u8]) {
+    let hook = match SCHED_HOOK.read() {
+        Ok(guard) => guard.clone(),
+        Err(_) => None,
+    };
+    if let Some(hook) = hook {
+        hook(site, packet);
+    }
+}
